@@ -248,6 +248,21 @@ class UpgradeExperiment:
                 "xseed": rng.randrange(1 << 30), "double": rng.random() < 0.3}
 
     def do(self, run, o):
+        from .core import Violation, Foreign
+        try:
+            return self._do(run, o)
+        except (StopRun, Violation, Foreign, W.SimCrash):
+            raise
+        except Exception as e:  # noqa
+            import traceback
+            tb = traceback.extract_tb(e.__traceback__)
+            where = next((f for f in reversed(tb) if "/nixio/" in f.filename), None)
+            if where is None:
+                raise
+            run.violation("upgrade_library_exception", "upgrade_experiment", type(e).__name__,
+                          "%s: %s (at %s:%d)" % (type(e).__name__, str(e)[:160], where.filename.split("/nixio/")[-1], where.lineno))
+
+    def _do(self, run, o):
         fs = run.fstate()
         if fs is None or fs.real is None:
             return res(NOOP)
